@@ -70,6 +70,106 @@ pub fn rec(rule: &'static str, alt: usize, span: Span, tag: u64, args: Vec<RawAr
     })
 }
 
+pub fn term_of(l: &DefaultLexeme<u32>) -> reflr::Tree {
+    reflr::Tree::Term { tok: l.tok_id() as u16, start: l.span().start(), len: l.span().len(), faulty: l.faulty() }
+}
+
+fn conv_errs(errs: Vec<LexParseError<u32, DefaultLexerTypes<u32>>>) -> Vec<RealErr> {
+    let mut errors = vec![];
+    for e in errs {
+        if let LexParseError::ParseError(pe) = e {
+            let repairs = pe
+                .repairs()
+                .iter()
+                .map(|r| {
+                    r.iter()
+                        .map(|x| match x {
+                            ParseRepair::Insert(t) => RRp::Ins(t.0 as u16),
+                            ParseRepair::Delete(l) => RRp::Del(to_lx(l)),
+                            ParseRepair::Shift(l) => RRp::Sh(to_lx(l)),
+                        })
+                        .collect()
+                })
+                .collect();
+            errors.push(RealErr { lexeme: to_lx(pe.lexeme()), stidx: u32::from(pe.stidx()) as u16, repairs });
+        }
+    }
+    errors
+}
+
+fn mk_lexer(lexer: &StubLexer) -> LRNonStreamingLexer<'_, '_, DefaultLexerTypes<u32>> {
+    let lexemes: Vec<Result<DefaultLexeme<u32>, lrlex::LRLexError>> = lexer.lexemes.iter().map(|l| Ok(DefaultLexeme::new(l.tok_id as u32, l.start, l.len))).collect();
+    let mut nlc = cfgrammar::newlinecache::NewlineCache::new();
+    nlc.feed(&lexer.text);
+    LRNonStreamingLexer::new(&lexer.text, lexemes, nlc)
+}
+
+/// The other three generated configurations of grammar `k` on the same input: the two modes
+/// (actions / generic parse tree) must agree, and a parser generated with `RecoveryKind::None`
+/// must not recover. Returns (class, detail) findings.
+fn other_modes(k: usize, sc: &RScenario) -> Vec<(String, String)> {
+    let mut out = vec![];
+    let Ok(prep) = engine_r::prepare(sc) else { return out };
+    let lexer = StubLexer::new(&prep.toks, &sc.gaps, &sc.zero_width);
+    let clock = ClockPolicy { tick_ns: sc.clock.tick_ns, jumps: vec![] };
+    let (a, _) = run_gen(k, &prep.built, &lexer, sc.hash_seed, &clock);
+    let SimOutcome::Ok(a) = a else { return out };
+    let a_tree = a.value.filter(|v| *v < a.recs.len()).map(|v| engine_r::build_tree(&a.recs, v));
+    // actions, no recovery
+    let (n, _) = sim_process(sc.hash_seed, Some(&clock), || {
+        RECS.with(|r| r.borrow_mut().clear());
+        let lx = mk_lexer(&lexer);
+        let (v, errs) = run_generated_norecovery(k, &lx, PARAM_MAGIC);
+        (v.is_some(), conv_errs(errs))
+    });
+    let (tn, _) = sim_process(sc.hash_seed, Some(&clock), || {
+        let lx = mk_lexer(&lexer);
+        let (t, errs) = run_generated_tree(k, false, &lx);
+        (t, conv_errs(errs))
+    });
+    let (t, _) = sim_process(sc.hash_seed, Some(&clock), || {
+        let lx = mk_lexer(&lexer);
+        let (t, errs) = run_generated_tree(k, true, &lx);
+        (t, conv_errs(errs))
+    });
+    let (SimOutcome::Ok((n_val, n_errs)), SimOutcome::Ok((tn_tree, tn_errs)), SimOutcome::Ok((t_tree, t_errs))) = (n, tn, t) else {
+        out.push(("C08-generated-mode-panicked".to_string(), "one of the generated parser configurations panicked".to_string()));
+        return out;
+    };
+    let first = a.errors.first();
+    for (name, val, errs) in [("actions", n_val, &n_errs), ("generic tree", tn_tree.is_some(), &tn_errs)] {
+        match first {
+            None => {
+                if !val || !errs.is_empty() {
+                    out.push(("C08-generated-norecovery".into(), format!("{name} parser generated with RecoveryKind::None: valid input gives value {val}, {} errors", errs.len())));
+                }
+            }
+            Some(f) => {
+                if val || errs.len() != 1 || !errs[0].repairs.is_empty() || errs[0].lexeme != f.lexeme || errs[0].stidx != f.stidx {
+                    out.push(("C08-generated-norecovery".into(), format!("{name} parser generated with RecoveryKind::None on an input whose first error is at {:?}: value {val}, errors {:?}", f.lexeme, errs.iter().map(|e| (e.lexeme, e.repairs.len())).collect::<Vec<_>>())));
+                }
+            }
+        }
+    }
+    if first.is_none() {
+        if let (Some(x), Some(y)) = (&a_tree, &tn_tree) {
+            if !x.same_shape(y) {
+                out.push(("C08-e-actions-vs-generic-tree".into(), format!("generated parsers, valid input: actions build {} but the generic tree is {}", x.pp(), y.pp())));
+            }
+        }
+    }
+    // with recovery the two modes are different programs and may pick different (equally
+    // ranked) repairs; they are compared when they reported the same errors and repairs
+    if t_errs == a.errors {
+        match (&a_tree, &t_tree) {
+            (Some(x), Some(y)) if !x.same_shape(y) => out.push(("C08-e-actions-vs-generic-tree".into(), format!("generated parsers, same repairs: actions build {} but the generic tree is {}", x.pp(), y.pp()))),
+            (Some(_), None) | (None, Some(_)) => out.push(("C08-e-actions-vs-generic-tree".into(), "generated parsers, same repairs: one mode returns a value, the other does not".into())),
+            _ => {}
+        }
+    }
+    out
+}
+
 fn to_lx(l: &DefaultLexeme<u32>) -> Lx {
     Lx { start: l.span().start(), len: l.span().len(), faulty: l.faulty(), tok_id: l.tok_id() as u16 }
 }
@@ -154,6 +254,12 @@ fn main() {
                 hit = true;
             }
         }
+        for (c, d) in other_modes(k, &sc) {
+            println!("finding: property=C08 class={c} :: {d}");
+            if c == class {
+                hit = true;
+            }
+        }
         if hit {
             println!("VIOLATION property=C08 replay={} class={class}", args[1]);
             std::process::exit(1);
@@ -168,6 +274,7 @@ fn main() {
         evals: u64,
         with_errors: u64,
         zero_width: u64,
+        mode_checks: u64,
         action_calls: u64,
         digests: Vec<u64>,
         viol: BTreeMap<String, (u64, u64, usize, RScenario, String)>,
@@ -175,7 +282,7 @@ fn main() {
         policy: BTreeMap<String, u64>,
         sample: Option<Value>,
     }
-    let tot = Mutex::new(Tot { evals: 0, with_errors: 0, zero_width: 0, action_calls: 0, digests: vec![], viol: BTreeMap::new(), known: BTreeMap::new(), policy: BTreeMap::new(), sample: None });
+    let tot = Mutex::new(Tot { evals: 0, with_errors: 0, zero_width: 0, mode_checks: 0, action_calls: 0, digests: vec![], viol: BTreeMap::new(), known: BTreeMap::new(), policy: BTreeMap::new(), sample: None });
     std::thread::scope(|s| {
         for o in 0..nthreads {
             let tot = &tot;
@@ -204,7 +311,13 @@ fn main() {
                             reps.push((f, rf));
                         }
                         todo.clear();
+                        let extra = if reps[0].1.discarded.is_none() { other_modes(k, &reps[0].0) } else { vec![] };
                         let mut t = tot.lock().unwrap();
+                        t.mode_checks += 1;
+                        for (class, detail) in extra {
+                            let e = t.viol.entry(class.clone()).or_insert((0, i, k, reps[0].0.clone(), detail.clone()));
+                            e.0 += 1;
+                        }
                         for (sc, rep) in reps {
                             if rep.discarded.is_some() {
                                 continue;
@@ -252,7 +365,7 @@ fn main() {
     let viol: Vec<Value> = t.viol.iter().map(|(c, (n, idx, k, sc, d))| json!({"class": c, "occurrences": n, "index": idx, "grammar_index": k, "detail": d, "scenario": sc})).collect();
     println!(
         "{}",
-        json!({"evaluations": t.evals, "with_parse_errors": t.with_errors, "inputs_with_zero_width_lexemes": t.zero_width, "action_calls": t.action_calls,
+        json!({"evaluations": t.evals, "with_parse_errors": t.with_errors, "inputs_with_zero_width_lexemes": t.zero_width, "action_calls": t.action_calls, "inputs_run_through_all_four_generated_configurations": t.mode_checks,
                "distinct_nontrivial": t.digests.len(), "runs_by_clock_policy": t.policy, "known": t.known, "violations": viol, "sample": t.sample, "grammars": GRAMMARS.len()})
     );
 }
